@@ -501,6 +501,14 @@ func (g *gctx) lambda(nEl int) *Node {
 	}
 	if nEl == 2 {
 		limitMemo(c, 1)
+		// {csv ..} doubles every quote of a field it has to quote: one csv around
+		// the memo doubles the text per element, a csv inside a csv quadruples
+		// it (4^20 for a 20-element array never returns): at most one csv
+		walk(c.A, func(n *Node) {
+			if n.K == kCall && n.S == "csv" {
+				n.S = "tab"
+			}
+		})
 	}
 	l.A = []*Node{c}
 	if g.chance(25, "lamText") {
@@ -571,12 +579,18 @@ func (g *gctx) callDef(d *Def, depth int, top bool) *Node {
 			pk = d.Params[i]
 		}
 		var a *Node
+		ad := depth
+		if d.Long {
+			// a table may read its argument a thousand times: the inlined
+			// template holds as many copies, so constants and references only
+			ad = 0
+		}
 		if i < k && d.TopArgs[i] {
 			// spliced into running text when inlined: blank-free, and never a
 			// parameter of an enclosing body (it could later become blank text)
-			a = g.topSafe(pk, depth)
+			a = g.topSafe(pk, ad)
 		} else {
-			a = g.value(pk, depth)
+			a = g.value(pk, ad)
 		}
 		c.A = append(c.A, a)
 	}
@@ -824,6 +838,9 @@ func visible(defs []*Def, q int) (out []*Def, dropped int) {
 			last := before[len(before)-1]
 			o := &Def{Name: name + "#?", Pub: name, Opaque: true, Params: last.Params, TopArgs: map[int]bool{}, File: -1}
 			for _, b := range before {
+				if b.Long {
+					o.Long = true
+				}
 				if b.File != before[0].File {
 					o.File = -2 // its definitions stand in different files
 				}
@@ -903,9 +920,17 @@ func (g *gctx) definitions(max int) []*Def {
 		for ; dropped > 0; dropped-- {
 			pbt.Exclude("name-with->=2-earlier-definitions-and-one-more-to-come:not-callable-from-this-body")
 		}
-		np := g.n(0, 3, "params")
-		for p := 0; p < np; p++ {
-			d.Params = append(d.Params, paramKinds[g.n(0, len(paramKinds)-1, "paramKind")])
+		// a name has been redefined by now: now and then this body repeats,
+		// node for node, an argument of an earlier body that calls that name
+		// (see reuseArgument); the parameters are then the donor's
+		reused, donor := g.reuseArgument(defs, cands)
+		if reused != nil {
+			d.Params = append([]kind(nil), donor.Params...)
+		} else {
+			np := g.n(0, 3, "params")
+			for p := 0; p < np; p++ {
+				d.Params = append(d.Params, paramKinds[g.n(0, len(paramKinds)-1, "paramKind")])
+			}
 		}
 		g.defs = cands
 		g.body = d
@@ -982,6 +1007,35 @@ func (g *gctx) definitions(max int) []*Def {
 				d.Body = append(d.Body, l)
 			}
 		}
+		// a user function whose name is defined again further down, called
+		// inside an argument of another call: what a later body may repeat
+		if e := plantCandidate(all, cands, i); e != nil && g.chance(50, "nestedCallOfNameRedefinedLater") {
+			g.budget--
+			d.Body = append(d.Body, g.wrapArg(g.callDef(e, 1, false)))
+			g.label("user-call-inside-an-argument:name-defined-again-later")
+		}
+		if reused != nil {
+			if reused.K == kCall {
+				for _, e := range cands {
+					if e.Name != reused.S {
+						continue
+					}
+					for ai, a := range reused.A {
+						if ai < len(e.Params) && e.TopArgs[ai] && a.K == kArg {
+							d.TopArgs[a.I] = true
+						}
+					}
+					if e.TopOnly {
+						d.TopOnly = true
+					}
+				}
+			}
+			d.Body = append(d.Body, reused)
+		}
+		// a long body: one piece of more than 4096 bytes on one physical line
+		if g.n(0, 999, "longBody") < 15 {
+			g.longPiece(d)
+		}
 		// now and then one more piece reading a parameter the body already
 		// reads: every read re-evaluates the (lazy) argument
 		if len(d.Params) > 0 && g.chance(35, "readAgain") {
@@ -1014,10 +1068,18 @@ func (g *gctx) definitions(max int) []*Def {
 			n.InBody = true
 			if strings.HasSuffix(n.S, "#?") {
 				d.ReachesOpaque = true
+				for _, e := range cands {
+					if e.Name == n.S && e.Long {
+						d.Long = true
+					}
+				}
 				g.label("body-calls-a-name-defined-more-than-once(left-in-place)")
 			} else if e := byName[n.S]; e != nil {
 				if e.ReachesOpaque {
 					d.ReachesOpaque = true
+				}
+				if e.Long {
+					d.Long = true // its callers keep their arguments simple as well
 				}
 				if e.Pub == d.Pub {
 					g.label("redefinition-calls-the-definition-it-replaces")
@@ -1034,6 +1096,250 @@ func (g *gctx) definitions(max int) []*Def {
 	}
 	g.defs, _ = visible(all, n)
 	return defs
+}
+
+// plantCandidate: a callable definition (expandable, nestable) whose name is
+// defined again at or after position i and not by the last definition of all,
+// so that a later body sees the name with two definitions behind it.
+func plantCandidate(all []*Def, cands []*Def, i int) *Def {
+	for _, c := range cands {
+		if c.Opaque || c.TopOnly {
+			continue
+		}
+		last := -1
+		for k, d := range all {
+			if d.Pub == c.Pub {
+				last = k
+			}
+		}
+		if last >= i && last < len(all)-1 {
+			return c
+		}
+	}
+	return nil
+}
+
+// wrapArg: a helper call taking the node as an argument (any text will do).
+func (g *gctx) wrapArg(a *Node) *Node {
+	var f string
+	var c *Node
+	switch g.n(0, 5, "wrap") {
+	case 0:
+		f, c = "upper", call("upper", a)
+	case 1:
+		f, c = "lower", call("lower", a)
+	case 2:
+		f, c = "len", call("len", a)
+	case 3:
+		f, c = "eq", call("eq", a, lit(g.pick(pools[kWord], "wrapWord")))
+	case 4:
+		f, c = "coalesce", call("coalesce", a, lit("none"))
+	default:
+		f, c = "if", call("if", a, lit("yes"), lit("no"))
+	}
+	g.label("fn:" + f)
+	return c
+}
+
+// reuseArgument: when some name has two or more definitions behind this body
+// (an opaque callee, see visible), the body may repeat - node for node, so
+// that the one-definition-per-line text is identical - an argument of an
+// earlier body in which that name is called, or the whole call holding that
+// argument. A compiler that remembers anything about an argument text it has
+// seen (the funcs files are all compiled by ONE compiler) must not hand the
+// earlier meaning of the name to the later body: the reference is, as for
+// every call of a multiply-defined name, this body written inline with the
+// call left in place, compiled by a fresh builder. Calls in the copy are
+// re-bound the way `visible` prescribes at this position; nil when some call
+// in it cannot be named here, or when the copied arguments could control the
+// output size of the latest definition of the name.
+func (g *gctx) reuseArgument(defs []*Def, cands []*Def) (*Node, *Def) {
+	byPub := map[string]*Def{}
+	anyOpaque := false
+	for _, c := range cands {
+		byPub[c.Pub] = c
+		if c.Opaque {
+			anyOpaque = true
+		}
+	}
+	if !anyOpaque {
+		return nil, nil
+	}
+	callsOpaque := func(a *Node) bool {
+		found := false
+		walk([]*Node{a}, func(n *Node) {
+			if n.K == kCall && strings.IndexByte(n.S, '#') >= 0 {
+				if c := byPub[writtenName(n.S)]; c != nil && c.Opaque {
+					found = true
+				}
+			}
+		})
+		return found
+	}
+	type site struct {
+		parent, arg *Node
+		donor       *Def
+	}
+	var sites []site
+	byName := map[string]*Def{}
+	for _, e := range defs {
+		byName[e.Name] = e
+		if e.Long {
+			continue
+		}
+		// (not inside a sub-expression: {0} is the element there, here it
+		// would be the parameter; a sub-expression is copied as a whole only)
+		var visit func(l []*Node)
+		visit = func(l []*Node) {
+			for _, n := range l {
+				if n.K == kLam {
+					continue
+				}
+				if n.K == kCall && !n.OneLine {
+					for _, a := range n.A {
+						if callsOpaque(a) {
+							sites = append(sites, site{n, a, e})
+						}
+					}
+				}
+				visit(n.A)
+			}
+		}
+		visit(e.Body)
+	}
+	if len(sites) == 0 || !g.chance(65, "reuseArgument") {
+		return nil, nil
+	}
+	st := sites[g.n(0, len(sites)-1, "reuseSite")]
+	var piece *Node
+	if st.arg.K == kLam || g.chance(50, "reuseWholeCall") {
+		piece = clone(st.parent)
+	} else {
+		piece = g.wrapArg(clone(st.arg))
+	}
+	ok, stale := true, false
+	walk([]*Node{piece}, func(n *Node) {
+		if n.K != kCall || strings.IndexByte(n.S, '#') < 0 {
+			return
+		}
+		c := byPub[writtenName(n.S)]
+		switch {
+		case c == nil:
+			ok = false
+		case c.Opaque:
+			if orig := byName[n.S]; orig != nil {
+				for ai := range n.A {
+					if ai < len(c.Params) && c.Params[ai] == kSmall && !(ai < len(orig.Params) && orig.Params[ai] == kSmall) {
+						ok = false
+					}
+				}
+				stale = true
+			}
+			n.S = c.Name
+		case c.Name != n.S:
+			ok = false
+		}
+	})
+	if !ok {
+		return nil, nil
+	}
+	g.label("redefined-name:later-body-repeats-an-earlier-argument-text")
+	if stale {
+		g.label("redefined-name:later-body-repeats-an-earlier-argument-text:earlier-call-was-bound-before-the-redefinition")
+	}
+	return piece, st.donor
+}
+
+// longPiece appends a piece of more than 4096 bytes that is written on ONE
+// physical line (a generated table): running text, a {switch ..} table or a
+// call with very many arguments. The line stays well below the 64 KiB at which
+// the loader's line scanner gives up.
+func (g *gctx) longPiece(d *Def) {
+	var size int
+	switch r := g.n(0, 99, "longSize"); {
+	case r < 30:
+		size = g.n(4097, 4400, "longBytes") // right above the boundary
+	case r < 80:
+		size = g.n(4400, 12000, "longBytes")
+	case r < 95:
+		size = g.n(12000, 30000, "longBytes")
+	default:
+		size = g.n(30000, 56000, "longBytes")
+	}
+	d.Long = true
+	dyn := func() *Node {
+		if len(d.Params) > 0 {
+			return argn(g.n(0, len(d.Params)-1, "longArg"))
+		}
+		return key(g.keyFor(kWord))
+	}
+	switch g.n(0, 2, "longShape") {
+	case 0:
+		word := g.pick([]string{"lorem ", "x", "ab-", "\u00e9", "0123456789", "a b  ", "v1.|"}, "longWord")
+		s := strings.TrimRight(strings.Repeat(word, size/len(word)+1), " ")
+		if hasBlank(s) {
+			d.TopOnly = true
+		}
+		if n := len(d.Body); n > 0 && d.Body[n-1].K == kLit {
+			d.Body[n-1] = lit(d.Body[n-1].S + s)
+		} else {
+			d.Body = append(d.Body, lit(s))
+		}
+		g.label("long-body:text")
+	case 1:
+		if size > 20000 {
+			size = 4097 + size%16000 // every entry reads the argument: keep the inlined template moderate
+		}
+		x := dyn()
+		xl := len(printTemplate([]*Node{x}, oneSpace, nil))
+		c := call("switch")
+		c.OneLine = true
+		hit := g.n(0, size/(xl+16), "longHit")
+		hitKey := g.pick([]string{"abc", "X", "foo.bar", "42", "-7", "Hello"}, "longHitKey")
+		for est, i := 8, 0; est < size; i++ {
+			k, v := "k"+strconv.Itoa(i), "value"+strconv.Itoa(i)
+			if i == hit {
+				k = hitKey
+			}
+			c.A = append(c.A, call("eq", clone(x), lit(k)), lit(v))
+			est += 8 + xl + len(k) + len(v)
+		}
+		if g.chance(70, "longDefault") {
+			c.A = append(c.A, lit("other"))
+		}
+		d.Body = append(d.Body, c)
+		g.label("long-body:switch-table")
+	default:
+		f := g.pick([]string{"coalesce", "sumi", "maxi", "and", "or", "tab"}, "longFn")
+		c := call(f)
+		c.OneLine = true
+		for est, i := len(f)+2, 0; est < size; i++ {
+			var a string
+			switch f {
+			case "coalesce", "or":
+				a = ""
+			case "sumi", "maxi":
+				a = strconv.Itoa(i % 7)
+			case "and":
+				a = "1"
+			default:
+				a = "w" + strconv.Itoa(i)
+			}
+			c.A = append(c.A, lit(a))
+			if a == "" {
+				est += 3
+			} else {
+				est += 1 + len(a)
+			}
+		}
+		c.A = append(c.A, dyn())
+		if g.chance(50, "longTail") {
+			c.A = append(c.A, lit("9"))
+		}
+		d.Body = append(d.Body, c)
+		g.label("fn:" + f)
+		g.label("long-body:many-argument-call")
+	}
 }
 
 // argument use counts of a body (for labels / the non-trivial rule)
@@ -1173,7 +1479,14 @@ func (l *layout) file(defs []*Def) string {
 				sb.WriteString(l.filler(2, true))
 				sb.WriteString(l.blanks(0, 4))
 			}
-			sb.WriteString(printTemplate([]*Node{n}, l.sep, nil))
+			sep := sepFn(l.sep)
+			if n.OneLine {
+				// a table on one line: no continuation inside, one separator style
+				// (of one byte: the line is as long as the generator planned)
+				s := l.g.pick([]string{" ", "\t"}, "longSep")
+				sep = func() string { return s }
+			}
+			sb.WriteString(printTemplate([]*Node{n}, sep, nil))
 		}
 		if l.g.chance(25, "endComment") {
 			sb.WriteString(l.blanks(0, 2) + l.comment())
